@@ -155,6 +155,10 @@ pub enum LineSpec {
     /// .ORG: distance forward from the current address; with `org_backward` the flag selects a target <= current
     Org(u8, bool, Option<String>),
     Instr(Instruction, Option<String>),
+    /// define the next undefined name twice in a row (the grammar does not forbid it): mode 0 label+label,
+    /// 1 .EQU(current address)+label, 2 label+.EQU(current address), 3 .EQU+.EQU with one value,
+    /// 4 label+.EQU with another value (the only mode in which references become ambiguous)
+    DefineTwice(u8, Option<String>, Option<String>),
 }
 
 #[derive(Clone, Debug)]
@@ -173,6 +177,7 @@ pub fn line_spec() -> impl Strategy<Value = LineSpec> {
         1 => (prop_oneof![3 => 0u8..10, 1 => any::<u8>()], any::<bool>(), comment_strategy()).prop_map(|(d, b, c)| LineSpec::Org(d, b, c)),
         8 => (machine_instr(), comment_strategy()).prop_map(|(i, c)| LineSpec::Instr(i, c)),
         3 => (directive(), comment_strategy()).prop_map(|(i, c)| LineSpec::Instr(i, c)),
+        1 => (0u8..5, comment_strategy(), comment_strategy()).prop_map(|(m, a, b)| LineSpec::DefineTwice(m, a, b)),
     ]
 }
 
@@ -342,6 +347,8 @@ pub struct Shape {
     pub comments: u32,
     pub mem_or_const_operands: u32,
     pub byte_total: usize,
+    pub duplicate_definitions: u32,
+    pub ambiguous_names: u32,
 }
 
 /// Build the AST from a spec.  Every name is defined exactly once (remaining ones as trailing
@@ -363,6 +370,27 @@ pub fn build(spec: &Spec, o: &GenOpts) -> (Asm, Shape) {
                     None => lines.push(Line::Label(n, cm.clone())),
                 },
                 None => lines.push(Line::Empty(cm.clone())),
+            },
+            LineSpec::DefineTwice(mode, c1, c2) => match undefined.pop() {
+                Some(n) => {
+                    let n2 = flip_case(&mut c, &n);
+                    let mode = if addr > 255 { 0 } else { *mode };
+                    let here = (addr & 0xFF) as u8;
+                    shape.duplicate_definitions += 1;
+                    let (a, b) = match mode {
+                        0 => (Line::Label(n, c1.clone()), Line::Label(n2, c2.clone())),
+                        1 => (Line::Instruction(Instruction::AsmEquals(n, here), c1.clone()), Line::Label(n2, c2.clone())),
+                        2 => (Line::Label(n, c1.clone()), Line::Instruction(Instruction::AsmEquals(n2, here), c2.clone())),
+                        3 => (Line::Instruction(Instruction::AsmEquals(n, here), c1.clone()), Line::Instruction(Instruction::AsmEquals(n2, here), c2.clone())),
+                        _ => {
+                            shape.ambiguous_names += 1;
+                            (Line::Label(n, c1.clone()), Line::Instruction(Instruction::AsmEquals(n2, here ^ 0x55), c2.clone()))
+                        }
+                    };
+                    lines.push(a);
+                    lines.push(b);
+                }
+                None => lines.push(Line::Empty(c1.clone())),
             },
             LineSpec::Org(d, back, cm) => {
                 let target = if o.org_backward && *back { (*d as usize) % (addr + 1) } else { addr + *d as usize };
